@@ -219,7 +219,8 @@ EvalC(e, st) ==
             (CASE o \in {"+", "-", "*", "&", "|", "^"} -> R(ArithOp(o, x, y), t, s2)
               [] o = "/" \/ o = "%" ->
                     IF IsZero(y) THEN R(Zero(t.w), t, Unspec(s2, "divzero"))
-                    ELSE IF ~t.s THEN R(IF o = "/" THEN UDiv(x, y) ELSE UMod(x, y), t, s2)
+                    \* deviation SignedDivAsUnsigned: / and % of signed operands computed by unsigned DIV / MOD
+                    ELSE IF ~t.s \/ "SignedDivAsUnsigned" \in s2.dev THEN R(IF o = "/" THEN UDiv(x, y) ELSE UMod(x, y), t, s2)
                     ELSE IF Eq(x, SMin(t.w)) /\ Eq(y, Ones(t.w)) THEN R(Zero(t.w), t, Unspec(s2, "divovf"))
                     ELSE LET ax == IF Msb(x) THEN Neg(x) ELSE x
                              ay == IF Msb(y) THEN Neg(y) ELSE y
